@@ -41,6 +41,7 @@ pub fn run_property(ctx: &Ctx, rep: &mut Report) -> Result<(), String> {
         "C05" => props::c05::run(ctx, rep),
         "C06" => {
             props::c06::run_lib(ctx, rep);
+            props::maps::run_projects(ctx, rep, "C06", 96, 2400);
         }
         "C07" => props::c07::run(ctx, rep),
         "C08" => props::c08::run(ctx, rep),
@@ -52,7 +53,10 @@ pub fn run_property(ctx: &Ctx, rep: &mut Report) -> Result<(), String> {
         "C16" => props::c16::run(ctx, rep),
         "C18" => props::c18::run(ctx, rep),
         "C19" => props::c19::run(ctx, rep),
-        "C20" => props::c20::run(ctx, rep),
+        "C20" => {
+            props::c20::run(ctx, rep);
+            props::maps::run_projects(ctx, rep, "C20", 96, 2400);
+        }
         p => return Err(format!("unknown property {p}")),
     }
     Ok(())
@@ -64,6 +68,7 @@ pub fn replay_case(case: &Value, ctx: &Ctx) -> Result<Vec<Violation>, String> {
         "C01" | "C02" | "C09" => Ok(props::c01::replay(case)),
         "C03" | "C04" => Ok(props::c03::replay(case)),
         "C05" => Ok(props::c05::replay(case)),
+        "C06" if case["kind"] == "project" => Ok(props::maps::replay(case, ctx, "C06")),
         "C06" => Ok(props::c06::replay(case)),
         "C07" => Ok(props::c07::replay(case)),
         "C08" => Ok(props::c08::replay(case, ctx)),
@@ -74,6 +79,7 @@ pub fn replay_case(case: &Value, ctx: &Ctx) -> Result<Vec<Violation>, String> {
         "C16" => Ok(props::c16::replay(case, ctx)),
         "C18" => Ok(props::c18::replay(case, ctx)),
         "C19" => Ok(props::c19::replay(case)),
+        "C20" if case["kind"] == "project" => Ok(props::maps::replay(case, ctx, "C20")),
         "C20" => Ok(props::c20::replay(case)),
         p => Err(format!("unknown property {p}")),
     }
